@@ -169,6 +169,26 @@ def run(R):
     kvals = common.assigned_values(de.node, "_keygetter")
     R.check(any(k == "expr" and q.src(v) == "keygetter" for k, v in kvals), "C12.WIRING", de.qualname + ":custom", R.site(de),
             "a custom keygetter is used when given", "a custom keygetter is ignored")
+    # the in-flight table never forgets an entry on its own
+    tv = dd.class_assigns.get("tasks")
+    okt = tv is not None and ((isinstance(tv.value, ast.Dict) and not tv.value.keys) or (isinstance(tv.value, ast.Call) and q.call_name(tv.value) in ("dict", "collections.OrderedDict", "OrderedDict") and not tv.value.args))
+    R.check(okt, "C12.TABLE", dd.qualname + ".tasks", R.site(dd.module, tv) if tv is not None else dd.qualname,
+            "the in-flight table is a plain, unbounded mapping: an entry disappears only through its completion callback or dirty()",
+            "the in-flight table is `%s`: entries can disappear while their task is still in flight (eviction), so a later call with the same key runs the body again" % (q.src(tv.value) if tv is not None else None))
+    # the `running` flag the hit path consults is true exactly while the generator is being stepped
+    step = ro.generator_step_fn()
+    scfg = cfg_of(step)
+    on = [n for n in kit.store_nodes(step, "running") if isinstance(n.ast, ast.Assign) and q.const_value(n.ast.value) is True]
+    off = [n for n in kit.store_nodes(step, "running") if isinstance(n.ast, ast.Assign) and q.const_value(n.ast.value) is False]
+    R.need(on, "idiom: the stepper no longer sets self.running")
+    starts = []
+    for n in on:
+        starts += [e.dst for e in scfg.out_edges(n.id, X)]
+    p = scfg.find_path(starts, [scfg.exit, scfg.raise_exit], X, cut_nodes=off)
+    R.check(p is None and off, "C12.RUNNING", step.qualname, R.site(step),
+            "once self.running is set, every exit of the stepper (normal or exceptional) clears it",
+            "the stepper can be left with self.running still True: a suspended in-flight task looks as if it were executing, so same-key callers get a fresh task and the body runs twice",
+            scfg.fmt_path(p) if p else None)
     # completion notification cannot be bypassed (shared with C10)
     from .c10 import notify_override_rule
     notify_override_rule(R, ro, "C12.NOTIFY")
